@@ -93,9 +93,9 @@ def _ray3d(
                 lower[0] = z[max(i - 1, 0)] if pcur[0] == z[i] else z[i]
                 lower[1] = x[max(j - 1, 0)] if pcur[1] == x[j] else x[j]
                 lower[2] = y[max(k - 1, 0)] if pcur[2] == y[k] else y[k]
-                upper[0] = z[i + 1]
-                upper[1] = x[j + 1]
-                upper[2] = y[k + 1]
+                upper[0] = z[min(i + 1, nz - 1)]
+                upper[1] = x[min(j + 1, nx - 1)]
+                upper[2] = y[min(k + 1, ny - 1)]
 
                 ray[count] = pcur.copy()
                 count += 1
@@ -114,6 +114,9 @@ def _ray3d(
 
         if count >= max_step:
             raise RuntimeError("maximum number of steps reached")
+
+    if count >= max_step:
+        raise RuntimeError("maximum number of steps reached")
 
     ray[count] = np.array([zsrc, xsrc, ysrc], dtype=np.float64)
 
